@@ -713,4 +713,24 @@ def c16_n(ctx: Ctx):
     return out
 
 
-RULES = [c16_a, c16_b, c16_c, c16_d, c16_e, c16_f, c16_g, c16_h, c16_i, c16_j, c16_k, c16_l, c16_m, c16_n]
+@rule("C16-o")
+def c16_o(ctx: Ctx):
+    """An archive is unpacked outside the project: the temporary extraction directory is not placed in the workspace (where it would be an entry that is not a job,
+    and would stay behind after a crash)."""
+    R = "C16-o"
+    out = []
+    for f in ctx.prog.functions_of_module("signac.import_export"):
+        for c in body_nodes(f):
+            if isinstance(c, ast.Call) and (dotted(c.func) or "").split(".")[-1] in ("TemporaryDirectory", "mkdtemp"):
+                k = f"{f.qual}|extraction-outside-project"
+                d = kwarg(c, "dir")
+                if d is not None and not (isinstance(d, ast.Constant) and d.value is None):
+                    out.append(ctx.viol(R, f, c, f"the extraction directory is created with dir={canon(d)[:40]}: the unpacked archive sits inside the project while the import runs and is left "
+                                        "there by a crash - an entry of the workspace that no job accounts for", construct=k))
+                else:
+                    out.append(ctx.ok(R, f, c, "archives are unpacked in the system's temporary directory", construct=k))
+    if not out:
+        out.append(ctx.ok(R, None, None, "no temporary extraction directory in signac.import_export", construct="signac.import_export|extraction-outside-project", nontrivial=False))
+    return out
+
+RULES = [c16_a, c16_b, c16_c, c16_d, c16_e, c16_f, c16_g, c16_h, c16_i, c16_j, c16_k, c16_l, c16_m, c16_n, c16_o]
